@@ -71,9 +71,8 @@ impl Space for Hdrs {
         if is_enum && CP_FORMS[cpf].0 == "tuple" {
             return ctx.reject(); // an enum has no tuple counterpart
         }
-        if is_enum && used.iter().any(|u| u.1.is_existing()) {
-            return ctx.reject(); // into_existing is not implemented for enums (KF-C17-03)
-        }
+        // member-by-member into_existing is not implemented for enums (KF-C17-03); with a quick return it is, and the
+        // instruction must still produce its impls (seed C04-03)
         // every order
         let perm = ctx.permutation(k);
         let cp_txt = [CP_FORMS[cpf].1, CP2_FORMS[cp2f].1];
@@ -82,7 +81,8 @@ impl Space for Hdrs {
         for &pi in &perm {
             let (name, cp) = &instrs[pi];
             let fallible = appl(name).unwrap().1;
-            src.push_str(&format!("#[{}({}{})]\n", name, cp_txt[*cp], if fallible { format!(", {}", er_txt) } else { String::new() }));
+            let qr = if is_enum && appl(name).unwrap().0.iter().any(|d| d.is_existing()) { "| return todo!()" } else { "" };
+            src.push_str(&format!("#[{}({}{}{})]\n", name, cp_txt[*cp], if fallible { format!(", {}", er_txt) } else { String::new() }, qr));
         }
         if is_enum {
             src.push_str("enum S { A, B }\n");
